@@ -62,6 +62,9 @@ variant that only serves to state the decidable input class `SegmentAligned`.
   Route: `block_test`, `soft_vs_strict`, `no_leftover_general`, `block_eq_prefix` (the back-off = the first accepting
   PREFIX expansion), `prefix_mem_expand` / `expand_shape` / `gmatch_shape` (every registered expansion of a block has the
   shape of a prefix expansion), `nested_aligned3`, `ro3_sub` / `ro3_shape`, `judge_of_table3`.
+  `C14_match_iff_flat_optional_blocks_no_slash` (no `SegmentAligned` needed without `"/"` segments) and
+  `C14_failure_in_class_exact`: every failure on a well-formed table lies in `anyOptParent ∨ anySplitOpt ∨
+  anyInnerOptTuple ∨ ("/" segment ∧ ¬SegmentAligned)` — exactly the predicates of `classify` (`C14_classify_sound`).
 * stage 3 (first part) — `tuple_opt_block`: the tuple loop over `LA ++ OB ++ LB` with a block `OB` of optional
   fields is `blockRP`: the back-off includes the first `inc` optionals for `inc = m, m-1, …, 0`, i.e. only PREFIXES of
   the block are ever tried — the exact mechanism behind F-C14-6, in every version of the code.
@@ -8790,6 +8793,219 @@ theorem C14_match_iff_flat_optional_blocks (d : Defs) (path : Path) (hw : d.wf =
       (fun t ht => regRoutes_ok3 d.base hb t (stage3List_mem d.tops t hs ht))
       (expandedPerDef_eq1 d) _ (route_aligned3 d hb hs _ hp)
 
+
+
+/-! ## stage 3 without `SegmentAligned`, for tables without a `"/"` static segment -/
+
+theorem softSpec_rem_aligned : ∀ (ns : List (List Char)) (c : Nat) (r r' : Path) (ps : Params), Aligned r →
+    softSpec ns c r = some (r', ps) → Aligned r' := by
+  intro ns
+  induction ns with
+  | nil => intro c r r' ps hr h; simp [softSpec] at h; rw [← h.1]; exact hr
+  | cons n ns ih =>
+    intro c r r' ps hr h
+    cases c with
+    | zero => simp [softSpec] at h; rw [← h.1]; exact hr
+    | succ c =>
+      simp only [softSpec] at h
+      cases ho : optSpec n r with
+      | none => simp [ho] at h
+      | some x =>
+        obtain ⟨r1, po⟩ := x
+        simp only [ho] at h
+        cases hs : softSpec ns c r1 with
+        | none => simp [hs] at h
+        | some y =>
+          obtain ⟨r2, p2⟩ := y
+          simp [hs] at h
+          rw [← h.1]
+          exact ih c r1 r2 p2 (optSpec_aligned n r r1 po ho) hs
+
+theorem soft_cur_eq_aligned : ∀ (ns : List (List Char)) (c : Nat) (r : Path), Aligned r →
+    softTake .cur ns c r = softTake .aligned ns c r := by
+  intro ns
+  induction ns with
+  | nil => intro c r _; rfl
+  | cons n ns ih =>
+    intro c r hr
+    cases c with
+    | zero => rfl
+    | succ c =>
+      simp only [softTake, atom_cur_eq_aligned (.opt n) r hr]
+      have hoa := opt_aligned n r
+      cases hT : ((toSeg (.opt n)).test .aligned r).rp with
+      | panic => rfl
+      | none => rfl
+      | some x =>
+        obtain ⟨r1, po⟩ := x
+        rw [hT] at hoa
+        cases hsp : optSpec n r with
+        | none => simp [hsp, ofOpt] at hoa
+        | some y =>
+          obtain ⟨ry, py⟩ := y
+          simp [hsp, ofOpt] at hoa
+          have hal : Aligned r1 := by rw [hoa.1]; exact optSpec_aligned n r ry py hsp
+          simp only [ih c r1 hal]
+
+theorem blockTry_cur_eq_aligned (ns : List (List Char)) (B : List FSeg) (hB : ∀ f ∈ B, WfA f)
+    (hnsB : ∀ f ∈ B, notSlash f = true) (r1 : Path) (pa : Params) (hr1 : Aligned r1) :
+    ∀ inc, blockTry .cur ns B r1 pa inc = blockTry .aligned ns B r1 pa inc := by
+  have hB' : ∀ r2, Aligned r2 → seqRP .cur B r2 = seqRP .aligned B r2 := by
+    intro r2 h2; simp only [seqRP, seq_cur_eq_aligned B hB hnsB r2 h2]
+  have hrem : ∀ c r2 po, softTake .aligned ns c r1 = .some (r2, po) → Aligned r2 := by
+    intro c r2 po h
+    rw [soft_aligned] at h
+    cases hs : softSpec ns c r1 with
+    | none => simp [hs, ofOpt] at h
+    | some x =>
+      obtain ⟨rx, px⟩ := x
+      simp [hs, ofOpt] at h
+      rw [← h.1]; exact softSpec_rem_aligned ns c r1 rx px hr1 hs
+  intro inc
+  induction inc with
+  | zero =>
+    simp only [blockTry, soft_cur_eq_aligned ns 0 r1 hr1]
+    cases hs : softTake .aligned ns 0 r1 with
+    | panic => rfl
+    | none => rfl
+    | some x => obtain ⟨r2, po⟩ := x; simp only [hB' r2 (hrem 0 r2 po hs)]
+  | succ i ih =>
+    simp only [blockTry, soft_cur_eq_aligned ns (i + 1) r1 hr1]
+    cases hs : softTake .aligned ns (i + 1) r1 with
+    | panic => rfl
+    | none => rfl
+    | some x => obtain ⟨r2, po⟩ := x; simp only [hB' r2 (hrem (i + 1) r2 po hs), ih]
+
+theorem optBlock_cur_eq_aligned (F : List FSeg) (hA : ∀ f ∈ (splitBlock F).1, WfA f)
+    (hB : ∀ f ∈ (splitBlock F).2.2, WfA f) (hns : ∀ f ∈ F, notSlash f = true) (path : Path)
+    (hp : Aligned path) : optBlockRP .cur F path = optBlockRP .aligned F path := by
+  obtain ⟨hrec, _⟩ := splitBlock_recompose F
+  have hnsA : ∀ f ∈ (splitBlock F).1, notSlash f = true := by
+    intro f hf; apply hns; rw [hrec]; simp [hf]
+  have hnsB : ∀ f ∈ (splitBlock F).2.2, notSlash f = true := by
+    intro f hf; apply hns; rw [hrec]; simp [hf]
+  unfold optBlockRP blockRP
+  simp only [seqRP, seq_cur_eq_aligned _ hA hnsA path hp]
+  cases hT : seqTest .aligned (splitBlock F).1 path with
+  | panic => rfl
+  | none => rfl
+  | some m =>
+    simp only [Out.rp]
+    exact blockTry_cur_eq_aligned _ _ hB hnsB _ _ (seqTest_rem_aligned _ hA hnsA path m hp hT) _
+
+mutual
+theorem nested_cur_eq_aligned3 : ∀ (r : Route), r.stage3 = true → r.noSlashSeg = true → ∀ (pos : Nat) (path : Path),
+    Aligned path → matchNested .cur r pos path = matchNested .aligned r pos path
+  | .mk segs children, hg, hns, pos, path, hp => by
+    simp only [Route.stage3, Bool.and_eq_true, Bool.not_eq_true', List.all_eq_true, decide_eq_true_eq] at hg
+    obtain ⟨⟨⟨hwf, hin⟩, hkind⟩, hch⟩ := hg
+    simp only [Route.noSlashSeg, Bool.and_eq_true, List.all_eq_true] at hns
+    by_cases hce : children.isEmpty = true
+    · simp only [hce, if_true, Bool.and_eq_true] at hkind
+      obtain ⟨hob, hsl⟩ := hkind
+      obtain ⟨hA, _, hB, _, _⟩ := leaf_parts segs hwf hin hob hsl
+      have heq := test_eq_of_rp .cur .aligned segs path
+        (by rw [block_test .cur segs path hin hob, block_test .aligned segs path hin hob,
+          optBlock_cur_eq_aligned segs.gen hA hB hns.1 path hp])
+      simp only [matchNested, heq, hce, if_true]
+    · simp only [hce, Bool.false_eq_true, if_false, Bool.or_eq_true, Bool.and_eq_true, Bool.not_eq_true',
+        decide_eq_true_eq] at hkind
+      obtain ⟨hcnt, hkind⟩ := hkind
+      have heqt : ∀ p, Aligned p → segs.test .cur p = segs.test .aligned p := by
+        intro p hpa
+        have h1 := one_opt_test .cur segs p hin hcnt
+        have h2 := one_opt_test .aligned segs p hin hcnt
+        exact test_eq_of_rp .cur .aligned segs p
+          (by rw [h1, h2, optSeq_cur_eq_aligned segs.gen hwf hns.1 hcnt p hpa])
+      have ihc := children_cur_eq_aligned3 children hch hns.2 0
+      by_cases hpure : isPureOpt segs.gen = true
+      · obtain ⟨n, hgen⟩ : ∃ n, segs.gen = [.opt n] := by
+          cases hgg : segs.gen with
+          | nil => simp [hgg, isPureOpt] at hpure
+          | cons f F =>
+            cases f <;> cases F <;> simp [hgg, isPureOpt] at hpure
+            exact ⟨_, rfl⟩
+        simp only [matchNested, heqt path hp, heqt [] (Or.inl rfl), Ver.fixed, if_true, ihc path hp]
+        cases hT : segs.test .aligned path with
+        | panic => rfl
+        | none => rfl
+        | some pm =>
+          have hal := one_opt_rem_aligned segs hwf hin hcnt n hgen path pm hT
+          simp only [ihc pm.remaining hal]
+      · have hnp : isPureOpt segs.gen = false := by simpa using hpure
+        have hkind' : segs.optional = false ∧ noSplat segs.gen = true := by
+          rcases hkind with h | h
+          · exact h
+          · rw [h] at hnp; simp at hnp
+        obtain ⟨hopt, _⟩ := hkind'
+        have hwfa : ∀ f ∈ segs.gen, WfA f := fun f hf => wfa_of_wfao (hwf f hf) (gen_noOpt segs hopt f hf)
+        simp only [matchNested, heqt path hp, hopt]
+        cases hT : segs.test .aligned path with
+        | panic => rfl
+        | none => rfl
+        | some pm =>
+          have hT' : seqTest .aligned segs.gen path = .some pm := by
+            rw [← flatten_test .aligned segs path hopt]; exact hT
+          have hal := seqTest_rem_aligned segs.gen hwfa hns.1 path pm hp hT'
+          simp only [ihc pm.remaining hal]
+          rfl
+theorem children_cur_eq_aligned3 : ∀ (cs : List Route), stage3List cs = true → noSlashSegList cs = true →
+    ∀ (i : Nat) (path : Path), Aligned path → matchChildren .cur cs i path = matchChildren .aligned cs i path
+  | [], _, _, i, path, _ => by simp [matchChildren]
+  | c :: cs, hg, hns, i, path, hp => by
+    simp only [stage3List, Bool.and_eq_true] at hg
+    simp only [noSlashSegList, Bool.and_eq_true] at hns
+    simp only [matchChildren, nested_cur_eq_aligned3 c hg.1 hns.1 i path hp,
+      children_cur_eq_aligned3 cs hg.2 hns.2 (i + 1) path hp]
+end
+
+theorem C14_aligned_without_slash_segments_opt3 (d : Defs) (hw : d.wf = true) (h1 : anyOptParent d.tops = false)
+    (h2 : anySplitOpt d.tops = false) (h3 : anyInnerOptTuple d.tops = false)
+    (hns : noSlashSegList d.tops = true) (path : Path) (hp : startsSlash path = true) :
+    SegmentAligned d path := by
+  simp only [Defs.wf, Bool.and_eq_true, Bool.not_eq_true'] at hw
+  obtain ⟨⟨hb, hwl⟩, _⟩ := hw
+  have hs := stage3List_of_classes d.tops hwl h1 h2 h3
+  unfold SegmentAligned matchRoute
+  rw [stripBase_cur_eq_aligned d.base hb path hp]
+  cases hsb : stripBase .aligned d.base path with
+  | none => rfl
+  | some p =>
+    have hal := stripBase_aligned_rem d.base path p hp hsb
+    simp only [children_cur_eq_aligned3 d.tops hs hns 0 p hal]
+
+/-- stage 3 without `SegmentAligned`, for tables without a `"/"` static segment -/
+theorem C14_match_iff_flat_optional_blocks_no_slash (d : Defs) (path : Path) (hw : d.wf = true)
+    (hp : startsSlash path = true) (h1 : anyOptParent d.tops = false) (h2 : anySplitOpt d.tops = false)
+    (h3 : anyInnerOptTuple d.tops = false) (hns : noSlashSegList d.tops = true) : Holds d path :=
+  C14_match_iff_flat_optional_blocks d path hw hp h1 h2 h3
+    (C14_aligned_without_slash_segments_opt3 d hw h1 h2 h3 hns path hp)
+
+/-- **every failure is in a known-finding class, with the classifier's exact predicates**: on a well-formed
+table, a request path on which the property fails has `anyOptParent` (an optional next to a mandatory segment
+in a route with children) or `anySplitOpt` (a leaf's optionals not in one block, or ≥ 2 optionals in a route
+with children) or `anyInnerOptTuple` (an optional inside an inner tuple), or the table has a `"/"` static
+segment and the router leaves the segment grid on that path. -/
+theorem C14_failure_in_class_exact (d : Defs) (path : Path) (hw : d.wf = true) (hp : startsSlash path = true)
+    (hfail : ¬ Holds d path) :
+    anyOptParent d.tops = true ∨ anySplitOpt d.tops = true ∨ anyInnerOptTuple d.tops = true ∨
+      (noSlashSegList d.tops = false ∧ ¬ SegmentAligned d path) := by
+  cases h1 : anyOptParent d.tops with
+  | true => exact Or.inl rfl
+  | false =>
+    cases h2 : anySplitOpt d.tops with
+    | true => exact Or.inr (Or.inl rfl)
+    | false =>
+      cases h3 : anyInnerOptTuple d.tops with
+      | true => exact Or.inr (Or.inr (Or.inl rfl))
+      | false =>
+        refine Or.inr (Or.inr (Or.inr ⟨?_, ?_⟩))
+        · cases hns : noSlashSegList d.tops with
+          | false => rfl
+          | true => exact absurd (C14_match_iff_flat_optional_blocks_no_slash d path hw hp h1 h2 h3 hns) hfail
+        · intro hal
+          exact hfail (C14_match_iff_flat_optional_blocks d path hw hp h1 h2 h3 hal)
+
 /-! ## non-vacuity: every hypothesis above is satisfiable (and the conclusions are not trivially empty) -/
 
 -- C14_partition: a nested tuple with an optional that is backed off
@@ -8943,5 +9159,12 @@ example : blockDefs.wf = true ∧ anyOptParent blockDefs.tops = false ∧ anySpl
     matchRoute .cur blockDefs ['/', 'z', '/', 'u', '/', 'v'] =
       .some ⟨[(1, ['/', 'z']), (0, ['/', 'u', '/', 'v'])], [(['c'], ['u']), (['d'], ['v'])]⟩ ∧
     anySplitOpt optOrder.tops = true := by decide
+
+
+-- C14_match_iff_flat_optional_blocks_no_slash / C14_failure_in_class_exact: hypotheses satisfiable; each
+-- remaining counter-witness sits in its own class
+example : noSlashSegList blockDefs.tops = true ∧ anyOptParent optParent.tops = true ∧ anySplitOpt optOrder.tops = true ∧
+    anyInnerOptTuple optInner.tops = true ∧
+    (noSlashSegList slashParent.tops = false ∧ ¬ SegmentAligned slashParent ['/', 'a']) := by decide
 
 end Leptos.Router
